@@ -311,8 +311,8 @@ enumerate(const char* scenario, int* n_ok, int* n_deadlock, int* n_other, int* n
         const char* p = out;
         while ((p = strstr(p, "DS-DECISION step=")) && ndec < 512) {
             int step, prev, chosen;
-            char en[256];
-            if (sscanf(p, "DS-DECISION step=%d prev=%d chosen=%d enabled=%255s", &step, &prev, &chosen, en) == 4) {
+            char en[256], pk[32];
+            if (sscanf(p, "DS-DECISION step=%d prev=%d prevkind=%31s chosen=%d enabled=%255s", &step, &prev, pk, &chosen, en) == 5) {
                 dec[ndec] = chosen;
                 if ((size_t)step >= plen) {
                     for (char* tok = strtok(en, ","); tok; tok = strtok(0, ",")) {
